@@ -641,7 +641,9 @@ class SimulateOde(DeterministicOde):
                     
         '''
 
-        dX=np.array(dX)   # convert to numpy array so we can interpolate between timepoints
+        # one row per recorded step, one column per event; stays 2-D when no step
+        # was recorded (nothing can happen from the initial state)
+        dX=np.array(dX).reshape(-1, self.num_events)
 
         dims=dX.shape         # Get dimensions of data (timepoints x n_trans)
         n_trans=dims[1]
